@@ -99,8 +99,10 @@ uint64_t in_k; unsigned in_throw; unsigned cur_update;   /* in_throw: 0 = the fu
 int in_ver, in_lri; uint64_t in_left, in_right, in_c0, in_c1;   /* the entry state, for the native replay */
 uint64_t in_k2;
 static int inst_id(struct left_right* s, struct T* x) { return x == &s->_left ? 0 : x == &s->_right ? 1 : 2; }
+_Bool uf_consumed, uf_use_after_move;     /* value category of the functor: applying it as an rvalue (std::forward/std::move) may consume it */
 static void xv_ufunc(struct T* x) {      /* the update functor: x := 3x + k (k per update; not commutative between updates) */
   struct left_right* s = mon_self;
+  if (uf_consumed) uf_use_after_move = 1;
   XV_ENV();
   if (uf_n < N_UF) { uf_inst[uf_n] = inst_id(s, x); uf_clk[uf_n] = ++xv_clock; uf_held[uf_n] = s->_writer_mutex.held;
                      uf_reader_elsewhere[uf_n] = (r_state == R_READING); }
@@ -112,6 +114,7 @@ static void xv_ufunc(struct T* x) {      /* the update functor: x := 3x + k (k p
   if (r_reading(s, x)) uf_excl_bad = 1;     /* a reader entered while the functor was running */
 }
 #define XV_UFUNC(x) xv_ufunc(&(x))
+#define XV_UFUNC_RV(x) (xv_ufunc(&(x)), (void)(uf_consumed = 1))      /* std::forward<Func>(func)(x): an rvalue functor is consumed by the call */
 unsigned rf_n; int rf_inst; uint64_t rf_clk, rf_result, in_rk;
 static uint64_t xv_rfunc(struct T* x) {   /* the read functor */
   struct left_right* s = mon_self;
@@ -121,6 +124,7 @@ static uint64_t xv_rfunc(struct T* x) {   /* the read functor */
   return rf_result;
 }
 #define XV_RFUNC(x) xv_rfunc(&(x))
+#define XV_RFUNC_RV(x) xv_rfunc(&(x))                                 /* read applies its functor once: forwarding it is fine */
 
 /* ---- glue for the lowered text ---- */
 #define RI_arrive(x) ri_arrive(&(x))
@@ -191,7 +195,7 @@ static void havoc_lr(struct left_right* s) {
   XV_ASSUME(s->_read_indicator1._counter < MAX_READERS && s->_read_indicator2._counter < MAX_READERS);
   mon_reset(s);
   mtx_locks = 0; mtx_unlocks = 0; mtx_bad = 0; mtx_lock_clk = 0; mtx_unlock_clk = 0;
-  uf_n = 0; uf_excl_bad = 0; rf_n = 0; rf_inst = 2; rf_clk = 0; rf_result = 0; wait_n = 0; tog_n = 0; tog_enter_clk = 0; tog_exit_clk = 0; cur_update = 0;
+  uf_n = 0; uf_excl_bad = 0; uf_consumed = 0; uf_use_after_move = 0; rf_n = 0; rf_inst = 2; rf_clk = 0; rf_result = 0; wait_n = 0; tog_n = 0; tog_enter_clk = 0; tog_exit_clk = 0; cur_update = 0;
   in_k = nondet_u64(); in_k2 = nondet_u64(); in_rk = nondet_u64(); in_throw = nondet_uint(); XV_ASSUME(in_throw <= 2);
   in_ver = s->_version_index; in_lri = s->_lr_indicator; in_left = s->_left.val; in_right = s->_right.val;
   in_c0 = s->_read_indicator1._counter; in_c1 = s->_read_indicator2._counter;
@@ -256,6 +260,7 @@ void h_guard(void) {
   struct read_guard g; g._indicator = 0;
   rg_ctor(&g, &s);
   XV_OBL("lr.read.bracket", g._indicator == (v == 0 ? &s._read_indicator1 : &s._read_indicator2));
+  XV_OBL("lr.read.bracket", XV_READ_RETURNS_BY_VALUE);   /* the result leaves read() by value, i.e. it is copied before the guard departs */
   XV_OBL("lr.indicator.counts", CNT(&s, v) == c0 + 1 && CNT(&s, 1 - v) == o0);
   XV_OBL("lr.read.bracket", m_ver.n_load == 1 && CM(v, n_rmw) == 1 && CM(v, rmw1_clk) > m_ver.last_load_clk && CM(1 - v, n_rmw) == 0);
   s._version_index = nondet_bool();            /* the version may change while the guard is alive */
@@ -323,6 +328,7 @@ static void check_update(struct left_right* s, int l0, int v0, uint64_t L0, uint
   XV_OBL("lr.update.mutex", uf_n >= 1 && uf_held[0] && (uf_n < 2 || uf_held[1]) && mtx_lock_clk < uf_clk[0] && mtx_unlock_clk > uf_clk[uf_n < 2 ? 0 : 1]);
   XV_OBL("lr.update.mutex", mtx_unlock_clk == xv_clock);   /* nothing after the unlock */
   XV_OBL("lr.update.order", uf_n >= 1 && uf_inst[0] == first);
+  XV_OBL("lr.update.order", !uf_use_after_move);   /* the functor is applied twice: it must not be consumed (applied as an rvalue) before its last application */
   XV_OBL("lr.update.exclusion", !uf_excl_bad);
   if (!xv_threw) {
     XV_OBL("lr.update.order", uf_n == 2 && uf_inst[1] == second);
@@ -376,7 +382,7 @@ void h_update2(void) {
   XV_ENV();
   _Bool mid_ok = inv_idle(&s) && !s._writer_mutex.held && uf_n == 2 && uf_inst[0] != uf_inst[1];
   int f1 = uf_inst[0];
-  uf_n = 0; cur_update = 1;
+  uf_n = 0; cur_update = 1; uf_consumed = 0;
   lr_update(&s);
   env_on = 0;
   XV_OBL("lr.update.exclusion", !uf_excl_bad && mid_ok && inv_idle(&s));
